@@ -18,7 +18,17 @@ claim("C02", "DESIGN.md §2 C02",
       "must-call / must-precede path rules on the SSA CFG, success-edge dominance through captured error cells, affine comparison, value provenance",
       COMMON_NOTE)
 
+claim("C03", "DESIGN.md §2 C03",
+      "Decides only the ordering discipline crash safety rests on (each rule: B never happens unless A already succeeded on this path): primary flushed before index and freelist after it in every store-level flush sequence (commit, Close); Index.Flush publishes bucket positions only after the log write succeeded; GC unlinks a data file only after the header recording FirstFile+1 was written successfully and only the header's first file; legacy files removed only after the new header exists; header files replaced by write-temp-then-rename, never in place; bucket snapshot installed by rename after flush+close and removed once opened; an unprocessed freelist hand-over file is never overwritten. Crash-state behaviour itself (torn appends, Put-vs-commit interleaving, GC crash windows, recovery) is NOT decided: crash-state enumeration is outside the static family.",
+      "must-precede / success-edge dominance path rules on the SSA CFG; who-may-write inventory of header files",
+      COMMON_NOTE)
+
+claim("C13", "DESIGN.md §2 C13",
+      "Structural necessary conditions of exactly-once freeing: every FreeList.Put call site in the module (inventory, min 4) matches an accepted evidence form — old location from index.Get freed only after a successful index Update/Remove behind the full-key match (so nothing is freed for a new key, a rejected Put or an absent key), relocation frees the old location after the re-point and the new copy only when the re-point failed; hand-over to GC never overwrites an unprocessed batch, runs in one exclusive flushLock section after a pool flush; the hand-over file is removed only after EOF and every record read is applied; records are marked only via the freelist, only when not already deleted and only when sizes match; the primary is flushed before the hand-over; freelist fields are lock-protected. Duplicates from two concurrent writers of one key, crash points and timing are not covered.",
+      "call-site inventory + evidence-form classification (dominance, provenance), lock-span check from the lockset dataflow",
+      COMMON_NOTE)
+
 PENDING = "check for this property is still being built in this session; see DESIGN.md for the planned structural rules"
-for p in ["C03","C04","C05","C06","C07","C08","C09","C10","C12","C13","C14","C15","C17"]:
+for p in ["C04","C05","C06","C07","C08","C09","C10","C12","C14","C15","C17"]:
     na(p, PENDING)
 na("C11", "progress, reclaimed byte counts, 'bounded number of cycles' and fixed points are quantities of executions; no refactoring-stable structural necessary condition exists beyond safety rules already claimed under C04/C07 (DESIGN.md §2 C11)")
